@@ -38,6 +38,10 @@ def check_case(ctx, cs):
         for e in elems:
             e.sample_size = 3
             _ = e.evalpts
+            if e.pdimension == 1:
+                # (only a part of the curve is sampled last: the map still refers to the whole curve and its start point)
+                lo_, hi_ = e.domain
+                e.evaluate(start=(lo_ + hi_) / 2.0, stop=hi_)
     except Exception as e:
         ctx.violate("evalpts", tg + ["raises"], small, {"exception": repr(e)[:200]})
         return
@@ -104,6 +108,20 @@ def check_case(ctx, cs):
     if all(fails):
         ctx.violate(site, tg, small, {"field": fails[0], "note": "rotation compared against both orientations" if op == "rotate" else ""})
         return
+    # a rational curve whose views were read, reversed, then mapped in place: the result is the reversed image
+    if not is_cont and len(c[0]["deg"]) == 1 and c[0]["rat"] and inplace and op == "translate":
+        try:
+            e2 = build(c[0])
+            _ = list(e2.ctrlpts), list(e2.weights)
+            e2.reverse()
+            operations.translate(e2, [float(x) for x in frv(o["vec"])], inplace=True)
+            ref = build(o["res"][0])
+            ref.reverse()
+            from ..core import close_seq as _cs
+            if not (_cs([list(q) for q in e2._control_points], [list(q) for q in ref._control_points]) and _cs(list(e2.knotvector), list(ref.knotvector))):
+                ctx.violate(site, tg + ["after_reverse"], small, {"got0": list(e2._control_points[0]), "expected0": list(ref._control_points[0])})
+        except Exception as ex:
+            ctx.violate(site, tg + ["after_reverse", "raises"], small, {"exception": repr(ex)[:200]})
     # the sampled points of the result are the mapped points (no stale samples from before the map)
     from ..core import close_seq
     var = variants[fails.index(None)]
